@@ -287,6 +287,28 @@ class Tr:
             if ta == 'Z':
                 return a, 'Z'
             fail(n, 'int() of a non-integer')
+        if name == 'np.array' and len(args) == 1 and isinstance(args[0], ast.Call) and call_name(args[0]) == 'range':
+            vals = [self.expr(a, env) for a in args[0].args]
+            if all(ty == 'Z' for _, ty in vals) and len(vals) in (1, 2):
+                lo, hi = ('0', vals[0][0]) if len(vals) == 1 else (vals[0][0], vals[1][0])
+                return f'(py_arange {lo} {hi})', 'listZ'
+            fail(n, 'np.array(range(..)) needs integers')
+        if name == 'np.kron' and len(args) == 2:
+            def ones_len(a):      # np.ones((k,)) -> k
+                if isinstance(a, ast.Call) and call_name(a) == 'np.ones' and len(a.args) == 1 and not a.keywords \
+                        and isinstance(a.args[0], ast.Tuple) and len(a.args[0].elts) == 1:
+                    return self.expr(a.args[0].elts[0], env)
+                return None
+            k0, k1 = ones_len(args[0]), ones_len(args[1])
+            if k0 is not None and k0[1] == 'Z':
+                v, tv = self.expr(args[1], env)
+                if tv == 'listZ':
+                    return f'(py_tile {k0[0]} {v})', 'listZ'
+            if k1 is not None and k1[1] == 'Z':
+                v, tv = self.expr(args[0], env)
+                if tv == 'listZ':
+                    return f'(py_repeat_each {v} {k1[0]})', 'listZ'
+            fail(n, 'unsupported np.kron')
         if name == 'np.arange':
             vals = [self.expr(a, env) for a in args]
             if any(ty != 'Z' for _, ty in vals) or len(vals) not in (1, 2):
